@@ -628,15 +628,27 @@ class BaseTrigger(ABC):
                 continue
             for vc_id in context.valid_conditions.keys():
                 condition_to_pending_triggers[vc_id].discard(trigger.trigger_id)
+            if trigger.logic == CompositeLogic.OR or len(trigger.condition_ids) == 1:
+                # One launch per occurrence: every valid condition gets its own run id
+                # and its own context, so that the arguments derive from that occurrence
+                # and several pending occurrences are not collapsed into one launch.
+                for valid_condition in context.valid_conditions.values():
+                    if valid_condition.condition.condition_id not in trigger.condition_ids:
+                        continue
+                    occurrence = TriggerContext()
+                    occurrence.add_valid_condition(valid_condition)
+                    for run_id in trigger.generate_trigger_run_ids(occurrence):
+                        if self.claim_trigger_run(run_id):
+                            args = trigger.get_arguments(occurrence)
+                            self.execute_task(trigger.task_id, args)
+                continue
             trigger_run_ids = trigger.generate_trigger_run_ids(context)
             for run_id in trigger_run_ids:
                 if self.claim_trigger_run(run_id):
                     args = trigger.get_arguments(context)
                     self.execute_task(trigger.task_id, args)
-                    # For OR logic, continue processing other run IDs
-                    # For AND logic, only one run ID is generated, so this has no effect
-                    if trigger.logic == CompositeLogic.AND:
-                        break
+                    # AND logic: a single run ID represents all conditions collectively
+                    break
         # Clean up the valid conditions that are no longer needed
         # Because all the triggers that required already ran
         conditions_to_clean = [
